@@ -68,6 +68,8 @@ def gen(cs, rnd, n, fifo_share=0.3, files_share=0.25):
             # the same bytes as file operands: the generated values in one or two regular files, the endless repetition in a named pipe after them -
             # once the rows are out no later file is needed either (the bytes of the regular files count as pulled)
             cut = rnd.choice([e + len(sep) for e in ends[:-1]]) if len(ends) > 1 and rnd.random() < 0.5 else None
+            if "index-in-file" in " ".join(PL.cfg_argv(cfg, random.Random(0))):
+                cut = None               # &index-in-file starts again in every file: the reference reads the values as one input
             files = [data] if cut is None else [data[:cut], data[cut:]]
             # what the pipe repeats: the last generated value (which the run never got to: its first copy is a new row), or the very first value
             # (read for sure: under --unique or a filter its copies never reach the limiter - but the rows are out, nothing more is needed)
